@@ -275,6 +275,8 @@ func runProperty(def *PropDef, c *Check) {
 	c.ruleFoundIndexSentinel("E10", fns)
 	c.ruleSearchCoversWholeList("E11", fns)
 	c.ruleFailuresStayFailures("E12", fns)
+	c.ruleNoNewFailures("E13", fns)
+	c.ruleNoNewFieldDependence("E14", fns)
 }
 
 // acceptedErrorIdioms: sites of the confirmed tree where a failed call is deliberately answered with a
